@@ -297,7 +297,9 @@ class EncodeRows(Filter[Iterable[Union[Dense,Sparse]],Iterable[Union[Dense,Spars
         if isinstance(first,Dense):
             if isinstance(enc,abc.Mapping):
                 if hasattr(first, 'headers'):
-                    enc = [ enc.get(h, enc.get(i, lambda x:x)) for i,h in enumerate(first.headers) ]
+                    #a header map need not be written in column order
+                    names = {i:h for h,i in first.headers.items()} if isinstance(first.headers,abc.Mapping) else dict(enumerate(first.headers))
+                    enc = [ enc.get(names.get(i), enc.get(i, lambda x:x)) for i in range(len(first)) ]
                 else:
                     enc = [ enc.get(i, lambda x:x)             for i   in range(len(first))        ]
             return ( EncodeDense(row, enc) for row in rows )
